@@ -176,9 +176,12 @@ CLAIMED["C09"] = dict(
          "digits is established by correspondence (all generated cases, checked against glibc and the exact reference), not by "
          "a theorem. The type-directed print family: each value is rendered as its default conversion (print_default_conversions) "
          "and a print call writes the concatenated text and returns its length (print_writes_text); embedded format strings go "
-         "through the same formatter; gp_count_fmt_specs vs. arguments consumed is checked by correspondence only.",
+         "through the same formatter; gp_count_fmt_specs equals the number of arguments the formatter's own scanner takes for every "
+         "format that scanner accepts (count_fmt_specs_eq_args_consumed, via a byte-level decomposition of a conversion "
+         "specification: scanSpec_dec), the formatter looks at exactly that many arguments (formatter_uses_exactly_its_arguments) "
+         "and the objects after an embedded format are split exactly (print_format_objects_split).",
     note="Trusted: harness c09.c incl. its x86-64 variadic call shape, the driver, the Python reference (oracle). glibc's %#g carry "
-         "bug is arbitrated by the exact reference. Not modelled: %S, %lc, pf_printf/pf_fprintf buffering.",
+         "bug is arbitrated by the exact reference. %lc and %S are modelled (convert_c, convert_S). Not modelled: pf_printf/pf_fprintf buffering (the stream writers are exercised by correspondence).",
     ref="6 C09")
 
 CLAIMED["C10"] = dict(
